@@ -348,9 +348,12 @@ def r_tags(F, R):
             exhausted = set()
             for bi in b.live_blocks():
                 for f in facts_at(ctx, bi):
+                    if body_entry is None:
+                        continue
                     if f[0] == "variant" and f[1][0] == "call" and f[1][1] == ("Iterator", "next") and \
-                            f[1][4] != hbi and (f[2] == "0" or (isinstance(f[2], tuple) and "1" in f[2][1])) \
-                            and b.dominates(body_entry, bi) if body_entry is not None else False:
+                            f[1][4] != hbi and b.dominates(body_entry, f[1][4]) and \
+                            (f[2] == "0" or (isinstance(f[2], tuple) and "1" in f[2][1])) \
+                            and b.dominates(body_entry, bi):
                         exhausted.add(bi)
             avoid = {bi for (bi, _) in pushes} | exhausted
             okd = body_entry is not None and hbi not in b.reachable(body_entry, avoid)
@@ -368,3 +371,39 @@ def r_tags(F, R):
             construct="tags are assigned only to first bytes never seen, reader/writer tables written together",
             where=b.where(), detail="; ".join(why) or "%d inserts, %d Some pushes, %d None pushes" % (
                 len(inserts), len(somes), len(nones)))
+
+
+def r_stats(F, R, cat=None):
+    """every input that encode accepts is recorded in the statistics the next generation's
+    dictionary is built from (heavy-hitter summary and first-byte bitmap), whether it was stored
+    as a tag or as a literal"""
+    cat = cat or Catalogue(F)
+    b = codec_body(F, "encode")
+    if b is None:
+        R.floor("R-STATS", "DictionaryCodec::encode", 0, 1)
+        return
+    R.saw(b)
+    ctx, effs = cat.effects(b)
+    param = ("place", b.key, ("arg", 2), ())
+    ins = set()
+    for (bi, t) in b.calls():
+        if callee_tag(t.get("callee")) in (("MisraGries", "insert"), ("MisraGries", "update")):
+            recv = operand_tree(ctx, t["args"][0])
+            val = operand_tree(ctx, t["args"][1])
+            if recv[0] == "place" and recv[2] == ("arg", 1) and recv[3][:1] == ("f:stats",) and \
+                    any(nd == param for nd in walk(val)):
+                ins.add(bi)
+    ok1 = bool(ins) and not b.can_return_avoiding(ins)
+    R.check("R-STATS", b.label(), ok1, construct="every accepted input enters the heavy-hitter summary",
+            where=b.where(), detail="summary insert sites %s" % sorted(ins))
+    # bitmap: stores into stats.1[..] ; empty inputs have no first byte
+    bm = set()
+    for e in effs:
+        if e.cls == "assign" and e.ctx is ctx:
+            for (c, (r, p)) in e.targets or ():
+                if r == ("arg", 1) and p[:2] == ("f:stats", "f:1"):
+                    bm.add(e.bb)
+    empties = {bi for bi in b.live_blocks() if any(is_empty_fact(f, b.key) for f in facts_at(ctx, bi))}
+    ok2 = bool(bm) and not b.can_return_avoiding(bm | empties)
+    R.check("R-STATS", b.label(), ok2, construct="every non-empty accepted input records its first byte",
+            where=b.where(), detail="bitmap stores at blocks %s; empty-input blocks %s" % (sorted(bm), sorted(empties)))
